@@ -797,10 +797,14 @@ pub fn exec(plan: &WirePlan) -> RunOut {
         match b.class {
             Class::Malformed => {
                 if !is4xx {
-                    out.violations.push(viol(&["C15"], "wire.not_refused", format!("{} answered {} (want 4xx)", b.label, raw.status)));
+                    // an upload whose connection broke mid-body and that is nevertheless stored concerns the
+                    // payload properties as well
+                    let props: &[&str] = if matches!(op.body, BodyForm::DropMid(..)) { &["C15", "C02", "C06"] } else { &["C15"] };
+                    out.violations.push(viol(props, "wire.not_refused", format!("{} answered {} (want 4xx)", b.label, raw.status)));
                 }
                 if let Some(d) = &changed {
-                    out.violations.push(viol(&["C15", "C18"], "wire.refused_changed_state", format!("{} answered {} but changed state: {d}", b.label, raw.status)));
+                    let props: &[&str] = if matches!(op.body, BodyForm::DropMid(..)) { &["C15", "C18", "C02", "C06"] } else { &["C15", "C18"] };
+                    out.violations.push(viol(props, "wire.refused_changed_state", format!("{} answered {} but changed state: {d}", b.label, raw.status)));
                 }
                 if b.cid_bad && protocol_route && opened_txn {
                     out.bump("probe.bad_client_id_request_opened_a_transaction");
